@@ -6004,7 +6004,9 @@ class State:
                     hand_type_indices = []
 
                     for k in self.hand_type_indices:
-                        for hand in self.get_up_hands(j, k):
+                        hands = tuple(self.get_up_hands(j, k))
+
+                        for hand in map(hands.__getitem__, pot.player_indices):
                             if hand is not None:
                                 hand_type_indices.append(k)
 
